@@ -32,7 +32,7 @@ C15(s, v) ==
   ELSE IF \E x \in SetOf(s.subs) : v.revoked[x] # SubRevoked(s, x) THEN "C15.revocation"
   ELSE IF v.revoked.key # KeyRevoked(s) THEN "C15.revocation"
   ELSE IF "S1" \in SetOf(s.subs) /\ ~v.cross_ok THEN "C15.selfsigs-verify"
-  ELSE IF v.expiry_tag # "-" /\ \E u \in Present(s) : EffSelf(s, u).kind = "cert" /\ FALSE THEN "C15.effective"
+  ELSE IF "key_expiry" \in DOMAIN v /\ ~KeyExpiryOK(s, v.key_expiry) THEN "C15.key-expiry"
   ELSE IF \E u \in Present(s) : ~TieOK(s, v, u) THEN "C15.tie"
   ELSE IF \E x \in SetOf(s.subs) : v.bind_eff[x] # EffBind(s, x).seq THEN "C15.tie"
   ELSE "ok"
